@@ -13,6 +13,9 @@ pub const G3: (Kind, u32, &str) = (Kind::Gene, 33, "GENE3");
 pub const O1: (Kind, u32, &str) = (Kind::Omim, 600_001, "Disease one");
 pub const O2: (Kind, u32, &str) = (Kind::Omim, 600_002, "Disease two, bare");
 pub const R1: (Kind, u32, &str) = (Kind::Orpha, 77, "Orpha one");
+pub const R2: (Kind, u32, &str) = (Kind::Orpha, 78, "Orpha two, on every term");
+pub const R3: (Kind, u32, &str) = (Kind::Orpha, 79, "Orpha three, bare");
+pub const R4: (Kind, u32, &str) = (Kind::Orpha, 80, "Orpha four, bare");
 
 pub fn rot(mask: u32, by: usize, n: usize) -> u32 {
     let mut out = 0;
@@ -29,12 +32,14 @@ fn facts_for(rec: (Kind, u32, &str), mask: u32, ids: &[u32]) -> Vec<AnnFact> {
 }
 
 /// The annotation groups derived from one subset S of the nodes:
-/// g1 <- S, g2 <- complement(S), o1 <- rot1(S), r1 <- rot2(S), plus bare g3 and o2.
+/// g1 <- S, g2 <- complement(S), o1 <- rot1(S), r1 <- rot2(S), r2 <- every term, plus bare g3, o2, r3, r4
+/// (totals: 3 genes, 2 OMIM, 4 ORPHA - three different N, none of them 1).
 pub struct AnnGroups {
     pub g1: Vec<AnnFact>,
     pub g2: Vec<AnnFact>,
     pub o1: Vec<AnnFact>,
     pub r1: Vec<AnnFact>,
+    pub r2: Vec<AnnFact>,
     pub bare: Vec<AnnFact>,
 }
 
@@ -47,7 +52,8 @@ impl AnnGroups {
             g2: facts_for(G2, full & !s, ids),
             o1: facts_for(O1, rot(s, 1, n), ids),
             r1: facts_for(R1, rot(s, 2, n), ids),
-            bare: vec![Facts::ann(G3.0, G3.1, G3.2, None), Facts::ann(O2.0, O2.1, O2.2, None)],
+            r2: facts_for(R2, full, ids),
+            bare: vec![Facts::ann(G3.0, G3.1, G3.2, None), Facts::ann(O2.0, O2.1, O2.2, None), Facts::ann(R3.0, R3.1, R3.2, None), Facts::ann(R4.0, R4.1, R4.2, None)],
         }
     }
     /// g1 facts in the given order first, then the other groups in canonical order
@@ -58,11 +64,14 @@ impl AnnGroups {
         v.extend(self.o1.iter().cloned());
         v.push(self.bare[1].clone());
         v.extend(self.r1.iter().cloned());
+        v.push(self.bare[2].clone());
+        v.extend(self.r2.iter().cloned());
+        v.push(self.bare[3].clone());
         v
     }
     /// round-robin interleaving of all groups
     pub fn interleaved(&self) -> Vec<AnnFact> {
-        let groups: [&Vec<AnnFact>; 5] = [&self.g1, &self.o1, &self.g2, &self.r1, &self.bare];
+        let groups: [&Vec<AnnFact>; 6] = [&self.g1, &self.o1, &self.g2, &self.r1, &self.bare, &self.r2];
         let mut v = vec![];
         let max = groups.iter().map(|g| g.len()).max().unwrap_or(0);
         for i in 0..max {
@@ -206,7 +215,7 @@ pub fn format_family(max_n: usize, stride: usize) -> Vec<(Facts, String)> {
 
 /// Family E: HP:1, HP:118 (child of 1), HP:5 (a modifier root, child of 1) and k free terms whose parent
 /// sets range over all subsets of {118, 5, earlier free terms} (the empty set = disconnected term),
-/// with six obsolete / replacement patterns and a record pattern derived from the shape index.
+/// with eight obsolete / replacement patterns (incl. a replacement chain and a mutual replacement) and a record pattern derived from the shape index.
 pub fn family_e(k_min: usize, k_max: usize, free_ids: &[u32]) -> Vec<(Facts, String)> {
     let mut out = vec![];
     for k in k_min..=k_max {
@@ -237,7 +246,7 @@ pub fn family_e(k_min: usize, k_max: usize, free_ids: &[u32]) -> Vec<(Facts, Str
                     }
                 }
             }
-            for flags in 0..6u32 {
+            for flags in 0..8u32 {
                 if k == 0 && flags > 0 {
                     continue;
                 }
@@ -270,9 +279,30 @@ pub fn family_e(k_min: usize, k_max: usize, free_ids: &[u32]) -> Vec<(Facts, Str
                         }
                         "two obsolete terms with the same replacement"
                     }
-                    _ => {
+                    5 => {
                         f.terms[last].obsolete = true;
                         "last free term obsolete without replacement"
+                    }
+                    6 => {
+                        // replacement chain: last -> previous -> first (both links can be members of one set)
+                        if k < 3 {
+                            continue;
+                        }
+                        f.terms[last].obsolete = true;
+                        f.terms[last].replacement = Some(f.terms[last - 1].id);
+                        f.terms[last - 1].obsolete = true;
+                        f.terms[last - 1].replacement = Some(f.terms[first].id);
+                        "replacement chain last -> previous -> first"
+                    }
+                    _ => {
+                        // mutual replacement
+                        if k < 2 {
+                            continue;
+                        }
+                        f.terms[last].replacement = Some(f.terms[last - 1].id);
+                        f.terms[last - 1].replacement = Some(f.terms[last].id);
+                        f.terms[last].obsolete = true;
+                        "two terms naming each other as replacement"
                     }
                 };
                 if (flags == 1 || flags == 3) && k < 2 {
@@ -287,4 +317,132 @@ pub fn family_e(k_min: usize, k_max: usize, free_ids: &[u32]) -> Vec<(Facts, Str
         }
     }
     out
+}
+
+/// Structured large graphs (beyond the exhaustive DAG bound): shapes that cross the size boundaries in
+/// the code (inline capacity 30 of an id group, recursion depth of the ancestor cache).
+/// ids: HP:1 is the top, HP:118 its child, further terms 1000+i (or descending from 9000 when `reversed_ids`).
+pub fn large_family() -> Vec<(Facts, String)> {
+    let mut out = vec![];
+    let mk = |edges: &[(usize, usize)], n: usize, reversed_ids: bool, what: String| -> (Facts, String) {
+        // node 0 = HP:1, node 1 = HP:118, node k>=2 = 1000+k (ascending) or 9000-k (descending ids)
+        let id = |k: usize| -> u32 {
+            match k {
+                0 => 1,
+                1 => 118,
+                _ => {
+                    if reversed_ids {
+                        9000 - k as u32
+                    } else {
+                        1000 + k as u32
+                    }
+                }
+            }
+        };
+        let mut f = Facts::default();
+        f.version = (2024, 2, 29);
+        for k in 0..n {
+            f.terms.push(Facts::term(id(k), &format!("N{k}")));
+        }
+        for &(c, p) in edges {
+            f.edges.push((id(c), id(p)));
+        }
+        (f, what)
+    };
+    for reversed in [false, true] {
+        let tag = if reversed { " (descendants have smaller ids)" } else { "" };
+        // chains: node k is_a node k-1
+        for n in [31usize, 32, 33, 34, 35, 36, 40, 64, 100] {
+            let edges: Vec<(usize, usize)> = (1..n).map(|k| (k, k - 1)).collect();
+            out.push(mk(&edges, n, reversed, format!("chain of {n} terms{tag}")));
+        }
+        // fan-in: one term with m direct parents, all children of HP:118
+        for m in [29usize, 30, 31, 32, 40] {
+            let mut edges = vec![(1, 0)];
+            for k in 0..m {
+                edges.push((2 + k, 1));
+                edges.push((2 + m, 2 + k));
+            }
+            out.push(mk(&edges, m + 3, reversed, format!("one term with {m} direct parents{tag}")));
+        }
+        // fan-out: HP:118 with 40 children, each with one grandchild
+        {
+            let mut edges = vec![(1, 0)];
+            for k in 0..40 {
+                edges.push((2 + k, 1));
+                edges.push((42 + k, 2 + k));
+            }
+            out.push(mk(&edges, 82, reversed, format!("40 children with one grandchild each{tag}")));
+        }
+        // complete binary tree of depth 5 (63 nodes): node k is_a node (k-1)/2
+        {
+            let edges: Vec<(usize, usize)> = (1..63).map(|k| (k, (k - 1) / 2)).collect();
+            out.push(mk(&edges, 63, reversed, format!("complete binary tree, 63 terms{tag}")));
+        }
+        // ladder: levels of two terms, each is_a both terms of the level above (many routes), 8 levels
+        {
+            let mut edges = vec![(1, 0)];
+            let levels = 8;
+            for l in 0..levels {
+                for s in 0..2 {
+                    let node = 2 + 2 * l + s;
+                    if l == 0 {
+                        edges.push((node, 1));
+                    } else {
+                        edges.push((node, 2 + 2 * (l - 1)));
+                        edges.push((node, 2 + 2 * (l - 1) + 1));
+                    }
+                }
+            }
+            out.push(mk(&edges, 2 + 2 * levels, reversed, format!("ladder of {levels} levels with 2^{levels} routes{tag}")));
+        }
+        // total order: every term is_a every earlier term (12 terms)
+        {
+            let n = 12;
+            let mut edges = vec![];
+            for c in 1..n {
+                for p in 0..c {
+                    edges.push((c, p));
+                }
+            }
+            out.push(mk(&edges, n, reversed, format!("total order on {n} terms (every term is_a all earlier ones){tag}")));
+        }
+        // two long chains joined at the bottom (33 and 35 ancestors through two parents)
+        {
+            let mut edges = vec![(1, 0)];
+            let (a, b) = (33usize, 35usize);
+            for k in 0..a {
+                edges.push((2 + k, if k == 0 { 1 } else { 2 + k - 1 }));
+            }
+            for k in 0..b {
+                edges.push((2 + a + k, if k == 0 { 1 } else { 2 + a + k - 1 }));
+            }
+            let leaf = 2 + a + b;
+            edges.push((leaf, 2 + a - 1));
+            edges.push((leaf, 2 + a + b - 1));
+            out.push(mk(&edges, leaf + 1, reversed, format!("leaf below two chains of {a} and {b} terms{tag}")));
+        }
+    }
+    out
+}
+
+/// Supply orders for large fact sets: ascending, descending, rotated by half, even-then-odd, inside-out.
+pub fn large_orders(n: usize) -> Vec<(Vec<usize>, &'static str)> {
+    let asc: Vec<usize> = (0..n).collect();
+    let desc: Vec<usize> = (0..n).rev().collect();
+    let rot: Vec<usize> = (0..n).map(|i| (i + n / 2) % n).collect();
+    let eo: Vec<usize> = (0..n).step_by(2).chain((1..n).step_by(2)).collect();
+    let mut io: Vec<usize> = vec![];
+    let (mut lo, mut hi) = (n as isize / 2 - 1, n / 2);
+    while lo >= 0 || hi < n {
+        if hi < n {
+            io.push(hi);
+            hi += 1;
+        }
+        if lo >= 0 {
+            io.push(lo as usize);
+            lo -= 1;
+        }
+    }
+    vec![(asc, "ascending (ancestors first)"), (desc, "descending (descendants first)"), (rot, "rotated by half"), (eo, "even positions then odd positions"), (io, "inside-out")]
 }
